@@ -248,3 +248,21 @@ Proof.
   rewrite match_loop_skip by exact N. rewrite match_loop_brk_skip by exact N.
   rewrite match_loop_S, match_loop_brk_S. destruct (get_match (firstn 1 (prefix st))); reflexivity.
 Qed.
+
+(* The loop as written is "longest match first, repeatedly, with a decreasing
+   length bound": whatever was found before, if the longest matching slice of
+   length <= n is the one of length i, the loop emits it and goes on with the
+   remainder and the bound i - 1.  A second key press in the same pass therefore
+   is the longest matching slice of length < i of the remainder. *)
+Lemma match_loop_unfold n : forall i st found ks,
+  (1 <= i <= n)%nat ->
+  (forall j, (i < j <= n)%nat -> get_match (firstn j (prefix st)) = None) ->
+  get_match (firstn i (prefix st)) = Some ks ->
+  match_loop n st found =
+  match_loop (i - 1) (set_prefix (skipn i (prefix st)) (call_handler ks (firstn i (prefix st)) st)) true.
+Proof.
+  induction n as [|n IH]; intros i st found ks Hi Hnone Hm; [lia|].
+  destruct (Nat.eq_dec i (S n)) as [->|Hneq].
+  - rewrite match_loop_S, Hm. now rewrite Nat.sub_succ, Nat.sub_0_r.
+  - rewrite match_loop_S, (Hnone (S n)) by lia. apply IH; try lia; auto. intros j Hj. apply Hnone. lia.
+Qed.
